@@ -45,6 +45,10 @@ FRAMES = [
     dict(name='versioned-model', frm='int1.tbl1 AS t JOIN mindsdb.pred.3 AS m{ON}', tables={'tbl1'}, models=[('mindsdb', ['pred', '3'])]),
     dict(name='two-models', frm='int1.tbl1 AS t JOIN mindsdb.pred AS m{ON} JOIN proj.pred2 AS m2', tables={'tbl1'}, models=[('mindsdb', ['pred']), ('proj', ['pred2'])]),
     dict(name='left-join-model', frm='int1.tbl1 AS t LEFT JOIN mindsdb.pred AS m{ON}', tables={'tbl1'}, models=[('mindsdb', ['pred'])]),
+    # how the catalog names the model's target (list / plain string / several targets); the input columns x, y, z are substrings of the target name
+    dict(name='target-as-list', frm='int1.tbl1 AS t JOIN mindsdb.predx AS m{ON}', tables={'tbl1'}, models=[('mindsdb', ['predx'])], target_form=0),
+    dict(name='target-as-string', frm='int1.tbl1 AS t JOIN mindsdb.predx AS m{ON}', tables={'tbl1'}, models=[('mindsdb', ['predx'])], target_form=1),
+    dict(name='several-targets', frm='int1.tbl1 AS t JOIN mindsdb.predx AS m{ON}', tables={'tbl1'}, models=[('mindsdb', ['predx'])], target_form=2),
 ]
 NF = len(FRAMES)
 
@@ -226,7 +230,7 @@ def leaf(shape, a, b, c, on_clause, using, model_first, frame=0):
     info = {'sql': sql, 'frame': F['name']}
     problems = []
     try:
-        plan = PL.plan_sql(sql, **PL.catalog())
+        plan = PL.plan_sql(sql, **PL.catalog(target_form=F.get('target_form', 0)))
     except (PlanningException, NotImplementedError) as e:
         info['rejected'] = type(e).__name__
         return problems, info
